@@ -584,7 +584,7 @@ func (s *Serializer) Deserialize(src []byte, dst *ParsedJson) (*ParsedJson, erro
 	values := s.valuesBuf
 	nSkips := 0
 	for _, t := range s.tagsBuf {
-		if off == len(dst.Tape) {
+		if off >= len(dst.Tape) {
 			return dst, errors.New("tags extended beyond tape")
 		}
 		tag := Tag(t)
@@ -593,10 +593,16 @@ func (s *Serializer) Deserialize(src []byte, dst *ParsedJson) (*ParsedJson, erro
 		if nSkips > 0 && tag != TagNop {
 			// We owe skips. Add with jumps
 			for i := 0; i < nSkips; i++ {
+				if off >= len(dst.Tape) {
+					return dst, errors.New("tags extended beyond tape")
+				}
 				dst.Tape[off] = (uint64(TagNop) << JSONTAGOFFSET) | uint64(nSkips-i)
 				off++
 			}
 			nSkips = 0
+			if off >= len(dst.Tape) {
+				return dst, errors.New("tags extended beyond tape")
+			}
 		}
 		switch tag {
 		case TagNop:
@@ -604,6 +610,9 @@ func (s *Serializer) Deserialize(src []byte, dst *ParsedJson) (*ParsedJson, erro
 		case TagString:
 			if len(values) < 16 {
 				return dst, fmt.Errorf("reading %v: no values left", tag)
+			}
+			if off+1 >= len(dst.Tape) {
+				return dst, fmt.Errorf("reading %v: no room left on tape", tag)
 			}
 			sOffset := binary.LittleEndian.Uint64(values[:8])
 			sLen := binary.LittleEndian.Uint64(values[8:16])
@@ -616,6 +625,9 @@ func (s *Serializer) Deserialize(src []byte, dst *ParsedJson) (*ParsedJson, erro
 			if len(values) < 8 {
 				return dst, fmt.Errorf("reading %v: no values left", tag)
 			}
+			if off+1 >= len(dst.Tape) {
+				return dst, fmt.Errorf("reading %v: no room left on tape", tag)
+			}
 			dst.Tape[off] = tagDst
 			dst.Tape[off+1] = binary.LittleEndian.Uint64(values[:8])
 			values = values[8:]
@@ -624,6 +636,9 @@ func (s *Serializer) Deserialize(src []byte, dst *ParsedJson) (*ParsedJson, erro
 			// Tape contains full value
 			if len(values) < 16 {
 				return dst, fmt.Errorf("reading %v: no values left", tag)
+			}
+			if off+1 >= len(dst.Tape) {
+				return dst, fmt.Errorf("reading %v: no room left on tape", tag)
 			}
 			dst.Tape[off] = binary.LittleEndian.Uint64(values[:8])
 			dst.Tape[off+1] = binary.LittleEndian.Uint64(values[8:16])
@@ -642,6 +657,10 @@ func (s *Serializer) Deserialize(src []byte, dst *ParsedJson) (*ParsedJson, erro
 			val += uint64(off)
 			if val > uint64(len(dst.Tape)) {
 				return dst, fmt.Errorf("%v extends beyond tape (%d). offset:%d", tag, len(dst.Tape), val)
+			}
+			if val <= uint64(off) {
+				// Must point forward, the closing tag is written at val-1.
+				return dst, fmt.Errorf("%v does not point forward. offset:%d", tag, val)
 			}
 
 			dst.Tape[off] = tagDst | val
@@ -677,6 +696,9 @@ func (s *Serializer) Deserialize(src []byte, dst *ParsedJson) (*ParsedJson, erro
 	if nSkips > 0 {
 		// We owe skips. Add with jumps
 		for i := 0; i < nSkips; i++ {
+			if off >= len(dst.Tape) {
+				return dst, errors.New("tags extended beyond tape")
+			}
 			dst.Tape[off] = (uint64(TagNop) << JSONTAGOFFSET) | uint64(nSkips-i)
 			off++
 		}
